@@ -8,11 +8,13 @@ for ID in $IDS; do
   PROP="${ID%%-*}"; P=/verif/seeded/$ID/patch.diff
   if ! git -C /repo apply --check $P 2>/dev/null; then
     WT=/tmp/seedwt/rebase-$ID; rm -rf $WT; git -C /repo worktree prune; git -C /repo worktree add -q --detach $WT HEAD
-    ( cd $WT && ( git apply --3way $P 2>/dev/null || { git reset -q --hard HEAD; patch -p1 -F3 --no-backup-if-mismatch < $P >/dev/null 2>&1; } ); git reset -q; find . -name "*.orig" -delete; git diff > /tmp/seedwt/$ID.rebased )
+    ( cd $WT && ( git apply --3way $P 2>/dev/null || { git reset -q --hard HEAD; patch -p1 -F3 --no-backup-if-mismatch < $P >/dev/null 2>&1; } ); git reset -q; find . -name "*.orig" -delete
+      # a hunk that could not be placed leaves a .rej file or conflict markers: such a re-base is NOT the seeded change
+      if [ -n "$(find . -name '*.rej')" ] || grep -rlq '^<<<<<<< ' commonroad 2>/dev/null; then : > /tmp/seedwt/$ID.rebased; else git diff > /tmp/seedwt/$ID.rebased; fi )
     git -C /repo worktree remove --force $WT
     if [ -s /tmp/seedwt/$ID.rebased ] && git -C /repo apply --check /tmp/seedwt/$ID.rebased 2>/dev/null; then
       [ -f seeded/$ID/patch.orig.diff ] || cp $P seeded/$ID/patch.orig.diff; cp /tmp/seedwt/$ID.rebased $P; echo "  ($ID: patch re-based onto /repo HEAD)"
-    else echo "SEED $ID: patch does not apply"; continue; fi
+    else echo "SEED $ID: patch does not apply to /repo HEAD (re-base it by hand)"; continue; fi
   fi
   git -C /repo apply $P
   OUT=$(VERIF_NO_EVIDENCE=1 ./check $PROP quick 2>&1); RC=$?
